@@ -52,3 +52,5 @@ def run_deductive(rep):
     except ImportError:
         pass
     verify.verify_many(rep, items)
+    from ..static import provenance
+    provenance.report(rep, only=("postprocessing/",))      # rows of scores / labels / groups are paired by position
